@@ -210,7 +210,7 @@ PROPS = {
 
 LEVELS = {
     "C15": {
-        "text": "Theorems in Coq: the label is Chinese exactly when the message contains a CJK character of the source's class and English otherwise; a clause whose rule carried message m reads path, echo, label, m verbatim; every rule function that supports a message uses the message of its rule text when there is one and default wording only when there is none; the extractor returns exactly the explanations of the clauses that have one, in order, joined by the separator, for every number and order of Chinese-labelled, English-labelled and unlabelled clean clauses (proved via a lemma that splitting a join of separator-free pieces gives the pieces back). The go/ast syntax tree of GetJoinValidErrStr — the function that words every rule violation — is REGENERATED FROM /repo ON EVERY RUN and proved (loop invariant over the range loop with continue) to compute the model's clause text for every name, echo and list of further texts; a parser-labelled custom message goes through it verbatim behind its one label. From the source text of 24 rule functions (C15_message_discipline_from_source): what a rule function writes is nothing, or ONE clause whose explanation is the rule's message alone when the rule text has one and the default wording only when it has none (kind errors and unreadable rules come before the message is looked at); GetJoinFieldErr computes the clause of an unreadable rule; and GetOnlyExplainErr itself, from its syntax tree, computes the model's extractor on EVERY text (loop invariant over the clauses) and never slices out of range.",
+        "text": "Theorems in Coq: the label is Chinese exactly when the message contains a CJK character of the source's class and English otherwise; a clause whose rule carried message m reads path, echo, label, m verbatim; every rule function that supports a message uses the message of its rule text when there is one and default wording only when there is none; the extractor returns exactly the explanations of the clauses that have one, in order, joined by the separator, for every number and order of Chinese-labelled, English-labelled and unlabelled clean clauses (proved via a lemma that splitting a join of separator-free pieces gives the pieces back). The go/ast syntax tree of GetJoinValidErrStr — the function that words every rule violation — is REGENERATED FROM /repo ON EVERY RUN and proved (loop invariant over the range loop with continue) to compute the model's clause text for every name, echo and list of further texts; a parser-labelled custom message goes through it verbatim behind its one label. From the source text of 29 rule functions (C15_message_discipline_from_source): what a rule function writes is nothing, or ONE clause whose explanation is the rule's message alone when the rule text has one and the default wording only when it has none (kind errors and unreadable rules come before the message is looked at); GetJoinFieldErr computes the clause of an unreadable rule; and GetOnlyExplainErr itself, from its syntax tree, computes the model's extractor on EVERY text (loop invariant over the clauses) and never slices out of range.",
         "design_ref": "DESIGN.md section 5, C15",
         "note": "Trusted: Coq kernel, translator (labels, separator, CJK class; minigo.go) and the semantics of Model/GoParse.v (strings.Builder as text, strings.Contains, range/continue), correspondence harness. The extractor's domain excludes echoes/messages that contain the separator or an earlier label (no escaping exists).",
         "technique": "Coq proof (string-splitting lemmas for a two-byte separator, per-rule case analysis) + exact-text and extractor correspondence evaluated in Coq",
@@ -323,8 +323,8 @@ LEVELS = {
                 "ints separators, unique as NoDup, prefix/suffix with protecting quotes stripped); the date layout builder equals the documented layout "
                 "for every mask and separator triple; the re pattern extraction returns the text between the protecting quotes. The go/ast syntax tree of "
                 "ToStr (the canonical rendering in/unique compare by) is REGENERATED FROM /repo ON EVERY RUN and proved (type switch, strconv calls) to compute "
-                "the model's to_str on every scalar value; so are 19 rule functions (Phone, Email, IDCard, Ip, Ipv4, Ipv6, Year, Year2Month, Date, Prefix, Suffix, Int, "
-                "Float, Json, File, Dir, In, Include and the in() they share, with CheckFieldIsStr): each writes exactly the predicted text for every rule text, "
+                "the model's to_str on every scalar value; so are 22 rule functions (Phone, Email, IDCard, Ip, Ipv4, Ipv6, Year, Year2Month, Date, Datetime, Prefix, Suffix, Int, "
+                "Float, Json, File, Dir, Ints, Unique, In, Include and the in() they share, with CheckFieldIsStr): each writes exactly the predicted text for every rule text, "
                 "names and value of any kind — the right recogniser, IP family test, layout mask and separator, kind dispatch, option list and comparison — and "
                 "writes nothing exactly when the model's rule function reports no clause (in(): for every comparison function, by induction over the options). "
                 "Oracle-backed rules: wiring proved, acceptance delegated.",
@@ -333,7 +333,7 @@ LEVELS = {
                 "in-builder round trip proved for options without quotes/slashes only (quoted options: correspondence). Trusted: Coq kernel, translator "
                 "(regex trees; minigo.go) and the semantics of Model/GoToStr.v (strconv.FormatFloat's text is a field of the model's float value) and Model/GoRule.v "
                 "(calls mean the callees' models; net.ParseIP / time.Parse / json.Valid / os.Stat are the oracle tables; function literals of the form return e are values), "
-                "correspondence harness. Ints, Unique, Re, Datetime are hand-modelled.",
+                "correspondence harness. Re is hand-modelled.",
         "technique": "Coq proof (regular-language equivalences via Brzozowski derivatives and a two-state scanner; case analysis) + correspondence evaluated in Coq",
     },
     "C20": {
